@@ -26,6 +26,7 @@ var g2lStd = map[string]stdFn{
 	"strings.Index":          {"index", false},
 	"strings.LastIndex":      {"lastIndex", false},
 	"strings.Contains":       {"contains", false},
+	"strings.ContainsRune":   {"containsRune", false},
 	"strings.TrimPrefix":     {"trimPrefix", false},
 	"strings.TrimSuffix":     {"trimSuffix", false},
 	"strings.Count":          {"count", false},
@@ -87,7 +88,32 @@ func (f *g2lFn) call(b *binds, e *ast.CallExpr) string {
 		}
 		return f.convert(b, tv.Type, e.Args[0], e)
 	}
+	if p, ok := f.u.absCalls[show(e.Fun)]; ok {
+		args := f.args(b, e)
+		if strings.HasSuffix(p, ":recv") {
+			p = strings.TrimSuffix(p, ":recv")
+			root := e.Fun
+			for {
+				switch x := root.(type) {
+				case *ast.SelectorExpr:
+					root = x.X
+					continue
+				case *ast.CallExpr:
+					root = x.Fun
+					continue
+				}
+				break
+			}
+			args = append([]string{f.expr(b, root)}, args...)
+		}
+		f.useAbs(p)
+		return "(" + p + " " + strings.Join(args, " ") + ")"
+	}
 	pkg, name, obj := f.calleeName(e)
+	if p, ok := f.u.absFuncs[pkg+"."+name]; ok && pkg != "" {
+		f.useAbs(p)
+		return "(" + p + " " + strings.Join(f.args(b, e), " ") + ")"
+	}
 	if _, ok := obj.(*types.Builtin); ok {
 		switch name {
 		case "len":
@@ -195,7 +221,12 @@ func (f *g2lFn) call(b *binds, e *ast.CallExpr) string {
 	if (pkg == "fmt" && name == "Errorf") || (pkg == "errors" && name == "New") {
 		if len(e.Args) >= 1 {
 			if tv, ok := f.p.info.Types[e.Args[0]]; ok && tv.Value != nil {
-				// arguments are evaluated for their effects (they cannot fail in the supported subset)
+				// the message is identified by its format literal; an error-typed argument (%v / %w of an inner error) is kept
+				for _, a := range e.Args[1:] {
+					if isErrorType(f.typeOf(a)) {
+						return fmt.Sprintf("(wrapErr %s %s)", tv.Value.ExactString(), f.expr(b, a))
+					}
+				}
 				return fmt.Sprintf("(some %s)", tv.Value.ExactString())
 			}
 		}
@@ -411,6 +442,21 @@ func (f *g2lFn) stmts(list []ast.Stmt, k kont) []string {
 			}
 			vals = tuple(parts)
 		}
+		if f.deferBody != nil && !f.inDefer {
+			// Go: assign the results, run the deferred closure (it may rewrite the named results), return them
+			lines := append([]string{}, b.lines...)
+			if len(s.Results) > 0 {
+				names := []string{}
+				for _, r := range f.results {
+					names = append(names, f.varName(r))
+				}
+				lines = append(lines, fmt.Sprintf("let %s := %s", tuple(names), vals))
+			}
+			f.inDefer = true
+			tail := f.stmts(f.deferBody, func() []string { return f.retTerm(f.namedTuple()) })
+			f.inDefer = false
+			return append(lines, tail...)
+		}
 		return append(b.lines, f.retTerm(vals)...)
 	case *ast.BranchStmt:
 		if s.Label != nil {
@@ -453,6 +499,13 @@ func (f *g2lFn) stmts(list []ast.Stmt, k kont) []string {
 	case *ast.RangeStmt:
 		return f.rangeStmt(s, rest)
 	case *ast.EmptyStmt:
+		return rest()
+	case *ast.DeferStmt:
+		fl, ok := s.Call.Fun.(*ast.FuncLit)
+		if !ok || len(s.Call.Args) != 0 || f.deferBody != nil || !f.named || f.inLoop != nil || containsReturn(fl.Body) {
+			f.bad(s, "defer (only a leading `defer func() {…}()` over the named results is supported)")
+		}
+		f.deferBody = fl.Body.List
 		return rest()
 	default:
 		lines := f.simple(s)
